@@ -223,6 +223,29 @@ class Split(object):
         return out
 
 
+def prf_is_hmac(ctx, rule):
+    """prf(key, data) is the library's HMAC of data under key with the negotiated digest - in particular with HMAC's own treatment of
+    keys of, above and below the block size (shared with C02: the AUTH value and the key pad are prf outputs)"""
+    pf = ctx.func('crypto.Prf.prf')
+    PF = ctx.sval(pf)
+    pps = pf.call_params()
+    common.expect_term(ctx, rule, PF, PF.ret(), 'HMAC(%s, %s, digestmod=self.hasher).digest()' % (pps[0], pps[1]),
+                       'prf(key, data) = HMAC(key, data) with the negotiated digest', (rule, 'prf'), ctx.site(pf, pf.node))
+
+
+def ike_keyring_split(ctx, rule):
+    """the seven SK_* keys are consecutive pieces of the prf+ output with the widths prf | integ integ | encr encr | prf prf (shared with
+    C02: SK_pi / SK_pr key the identity hash inside the signed octets)"""
+    gk = ctx.func('ikesa.IkeSa.generate_ike_sa_key_material')
+    V = ctx.sval(gk)
+    kr = V.ret()
+    a = tq.args(kr) if tq.is_call(kr, 'namedtuple.Keyring') else {}
+    sp = Split(V, [a.get(n) for n in RFC_ORDER])
+    sizes = sp.sizes(ctx, gk, {'prf': 5, 'integ': 7, 'encr': 11}) if sp.kind is not None else None
+    ctx.check(sizes == [5, 7, 7, 11, 11, 5, 5], rule, 'the key material is cut as SK_d(prf) SK_ai SK_ar (integ) SK_ei SK_er (encr) SK_pi SK_pr (prf)',
+              key=(rule, 'ike-split-widths'), site=ctx.site(gk, gk.node), detail={'widths for prf=5, integ=7, encr=11': sizes})
+
+
 def run(ctx):
     prog, res = ctx.prog, ctx.res
 
@@ -245,11 +268,7 @@ def run(ctx):
     ctx.check(bad is None, 'K1', 'prf+ equals T1 = prf(K, S|0x01), Tn = prf(K, Tn-1|S|n), truncated to the requested size, for %d '
               '(digest size, output size) combinations under symbolic interpretation' % n, key=('K1', 'prfplus'),
               site=ctx.site(pp, pp.node), detail={'digest,size,got,expected': bad})
-    pf = ctx.func('crypto.Prf.prf')
-    PF = ctx.sval(pf)
-    pps = pf.call_params()
-    common.expect_term(ctx, 'K1', PF, PF.ret(), 'HMAC(%s, %s, digestmod=self.hasher).digest()' % (pps[0], pps[1]),
-                       'prf(key, data) = HMAC(key, data) with the negotiated digest', ('K1', 'prf'), ctx.site(pf, pf.node))
+    prf_is_hmac(ctx, 'K1')
 
     # ---------------------------------------------------------------- K2 / K3
     gk = ctx.func('ikesa.IkeSa.generate_ike_sa_key_material')
@@ -335,6 +354,10 @@ def run(ctx):
                           key=('K2', 'old-prf-caller', q), site=ctx.site(fi, c.node),
                           detail={'old_sk_d': tq.text(skd), 'old_prf': tq.text(oprf_a)})
     ctx.floor('K2 rekey derivations (responder and initiator)', nrek, 2, rule='K2')
+    # ... and what the two negotiation functions put into those operands (Ni | Nr | SPIi | SPIr: the responder's SPI is the one of the
+    # response header - of the SA payload only on a rekey; shared with C01 O3)
+    from .c01 import derivation_sites
+    derivation_sites(ctx, 'K3')
     common.expect_term(ctx, 'K3', V, ka.get(pp.call_params()[1]), 'nonce_i + nonce_r + spi_i + spi_r',
                        'SK_* seed material = prf+(SKEYSEED, Ni | Nr | SPIi | SPIr, ...)', ('K3', 'seed'), site)
     env = {'prf': 5, 'integ': 7, 'encr': 11}
